@@ -31,10 +31,15 @@ type C06Proc struct {
 }
 
 type C06Scenario struct {
-	Dirs  [][]gen.ImportFile `json:"dirs"`
-	Procs []C06Proc          `json:"procs"`
+	// CwdIgnore: the working directory of every process (never the analysed directory itself) holds
+	// a .gitignore whose anchored patterns name the top-level package directories
+	CwdIgnore bool               `json:"cwd_ignore,omitempty"`
+	Dirs      [][]gen.ImportFile `json:"dirs"`
+	Procs     []C06Proc          `json:"procs"`
 	// Noise[d]: directory d also holds a .gitignore and ignored regular files around the sources
 	Noise []bool `json:"noise,omitempty"`
+	// Deep[d]: directory d also holds a directory chain deeper than PATH_MAX between its package directories
+	Deep []bool `json:"deep,omitempty"`
 }
 
 type C06 struct{}
@@ -63,6 +68,7 @@ func (C06) Generate(t *tape.Tape, tier string) interface{} {
 	for d := 0; d < nd; d++ {
 		sc.Dirs = append(sc.Dirs, gen.GenImportProject(t, maxFiles))
 		sc.Noise = append(sc.Noise, t.Bool(1, 4))
+		sc.Deep = append(sc.Deep, t.Bool(1, 6))
 	}
 	// history: every directory is cleaned at least once; second runs in the same process or after a restart
 	var first C06Proc
@@ -102,6 +108,7 @@ func (C06) Generate(t *tape.Tape, tier string) interface{} {
 		}
 		sc.Procs = append(sc.Procs, second)
 	}
+	sc.CwdIgnore = t.Bool(1, 3)
 	return sc
 }
 
@@ -136,6 +143,10 @@ func (C06) Run(ctx *sim.RunCtx, data json.RawMessage) (*sim.Outcome, error) {
 		return nil, sim.Harness("scenario: %v", err)
 	}
 	out := &sim.Outcome{Faults: map[string]int{}, Probes: map[string]int{}}
+	if sc.CwdIgnore {
+		os.WriteFile(filepath.Join(ctx.Dir, ".gitignore"), []byte(cwdIgnoreText), 0644)
+		out.Faults["working-directory-holds-gitignore"]++
+	}
 	out.ContentHash = hashJSON(sc)
 	dirs := make([]string, len(sc.Dirs))
 	state := make([]map[string]snapEnt, len(sc.Dirs)) // expected current state per dir
@@ -171,6 +182,11 @@ func (C06) Run(ctx *sim.RunCtx, data json.RawMessage) (*sim.Outcome, error) {
 				state[d][name] = snapEnt{Mode: os.FileMode(0644).String(), Text: text}
 			}
 			out.Faults["dir-noise"]++
+		}
+		if d < len(sc.Deep) && sc.Deep[d] {
+			if err := makeDeepDir(dirs[d], "aa_cache"); err == nil {
+				out.Faults["noise-directory-deeper-than-PATH_MAX"]++
+			}
 		}
 	}
 	seen := map[string]bool{}
